@@ -91,9 +91,10 @@ Qed.
 Lemma create_covers s t n s' acks :
   create_local s t n = (ROk, s') -> covers s acks -> covers s' (acks ++ [(t, n)]) /\ t <> [].
 Proof.
-  unfold create_local. destruct t as [|c t]; [discriminate|].
-  destruct (n <=? 0); [discriminate|]. destruct (mem_name s (c :: t)); [discriminate|].
-  intros H; inversion H; subst. intros C. split; [|discriminate].
+  unfold create_local. destruct (negb (valid_name t) || (n <=? 0)) eqn:V; [discriminate|].
+  destruct (mem_name s t); [discriminate|].
+  intros H; inversion H; subst. intros C.
+  split; [|intros ->; cbn in V; discriminate].
   intros t' k Hi. apply in_app_iff in Hi as [Hi|[Hi|[]]].
   - destruct (C t' k Hi) as [m [Hm Hk]]. exists m. split; [apply in_app_iff; now left|assumption].
   - inversion Hi; subst. exists k. split; [apply in_app_iff; right; now left|lia].
@@ -102,8 +103,9 @@ Qed.
 Lemma grow_covers s t n s' acks :
   grow_local s t n = (ROk, s') -> covers s acks -> covers s' (acks ++ [(t, n)]) /\ t <> [].
 Proof.
-  unfold grow_local. destruct (count_of s t) as [cur|] eqn:C; [|discriminate].
-  destruct (n <=? cur) eqn:L; [discriminate|]. destruct t as [|c t]; [discriminate|].
+  unfold grow_local. destruct t as [|c t]; [discriminate|]. destruct (n <=? 0); [discriminate|].
+  destruct (count_of s (c :: t)) as [cur|] eqn:C; [|discriminate].
+  destruct (n <=? cur) eqn:L; [discriminate|].
   intros H; inversion H; subst. intros Cv. split; [|discriminate].
   intros t' k Hi. apply in_app_iff in Hi as [Hi|[Hi|[]]].
   - apply (set_first_has s (c :: t) n cur C); [lia|]. now apply Cv.
@@ -258,8 +260,7 @@ Proof. intros t n []. Qed.
 
 Lemma grow_ok_nonempty s t n s' : grow_local s t n = (ROk, s') -> t <> [].
 Proof.
-  unfold grow_local. destruct (count_of s t); [|discriminate].
-  destruct (n <=? z); [discriminate|]. destruct t; [discriminate|]. discriminate.
+  unfold grow_local. destruct t; [discriminate|]. discriminate.
 Qed.
 
 Lemma inv_step w e w' r :
